@@ -17,6 +17,10 @@
 //!     signal read by an enclosing / own / directly contained dynamic part was written, no enclosing
 //!     `Show` condition changed its truth value), is gone or has a different mutation count;
 //!   * `dom-error`: `take_errors()` is not empty; `not-unmounted`: children left after `dispose`.
+//! Views with component-local state (`sc`, `forr`): the fresh render's component-local signals start with
+//! the current value of the live instance at the same place (scope id + keys of the enclosing rows) of the
+//! mounted view; the `touched` oracle is not applied to them.  A panic of the real code (a read of a
+//! disposed value inside an effect run) prints `panic ## fail panic`, every further line `dead`.
 use hx_c04::*;
 use hx_common::*;
 use leptos::either::Either;
